@@ -4,7 +4,7 @@
 use crate::data::{CallSt, CanonSt, Dec, Ent};
 use crate::mon_local::{stream_writers, view};
 use crate::netmc::{viol, BlobId, Cx, Monitor, RunId, State, StateInfo, Viol};
-use crate::script::{self, Arg, I};
+use crate::script::{self, Arg, Out, I};
 
 use serde_json::{json, Value};
 use std::collections::{BTreeMap, BTreeSet, HashSet};
@@ -172,11 +172,88 @@ pub struct C11 {
     pub multi: u64,
     pub states_with_canon: u64,
     pub nontrivial_states: u64,
+    /// scripts with `(fold #canon i ... (call P ("s" "visit") [i]) ...)`: the iterations are the elements of the
+    /// canonical value, whoever runs the fold and whatever reached the stream later
+    canon_fold: bool,
+    pub canon_fold_states: u64,
+    pub canon_fold_quiescent: u64,
 }
 
 impl C11 {
     pub fn new(ast: &I) -> C11 {
-        C11 { cc: CanonCtx::new(ast), first_canons: 0, multi: 0, states_with_canon: 0, nontrivial_states: 0 }
+        let mut canon_fold = false;
+        let mut ncanon = 0;
+        script::walk(ast, &mut |x| {
+            if matches!(x, I::Canon { .. }) {
+                ncanon += 1;
+            }
+            if let I::Fold { iterable: Arg::Canon(_) | Arg::CanonMap(_), iter, body, .. } = x {
+                script::walk(body, &mut |y| {
+                    if let I::Call { func, args, .. } = y {
+                        if func == "visit" && args.first() == Some(&Arg::Var(iter.clone())) {
+                            canon_fold = true;
+                        }
+                    }
+                });
+            }
+        });
+        C11 { cc: CanonCtx::new(ast), first_canons: 0, multi: 0, states_with_canon: 0, nontrivial_states: 0, canon_fold: canon_fold && ncanon == 1, canon_fold_states: 0, canon_fold_quiescent: 0 }
+    }
+
+    fn canon_fold_state(&mut self, cx: &mut Cx, st: &State, info: &StateInfo) -> Vec<Viol> {
+        let mut out = vec![];
+        let mut blobs: BTreeSet<BlobId> = st.prev.iter().cloned().collect();
+        blobs.extend(st.inflight.iter().map(|(_, b)| *b));
+        // elements of the canonical value, from any data that holds it
+        let mut elems: Option<Vec<String>> = None;
+        for b in &blobs {
+            if let Some(d) = cx.dec(*b) {
+                if let Some(c) = canon_cids(&d).first() {
+                    if let Some(a) = d.canon(c) {
+                        let v: Option<Vec<String>> = a.elems.iter().map(|e| e.value.as_ref().and_then(|t| serde_json::from_str::<Value>(t).ok()).map(|v| crate::host::canon_json_text(&v))).collect();
+                        if let Some(v) = v {
+                            elems = Some(v);
+                            break;
+                        }
+                    }
+                }
+            }
+        }
+        let mut visited: BTreeMap<(u8, String), u32> = BTreeMap::new();
+        for ((p, rq), n) in st.ghosts.issued.iter() {
+            let r = &cx.reqs[*rq as usize];
+            if r.function == "visit" {
+                *visited.entry((*p, r.args.first().cloned().unwrap_or_default())).or_insert(0) += n;
+            }
+        }
+        if visited.is_empty() && elems.is_none() {
+            return out;
+        }
+        self.canon_fold_states += 1;
+        let Some(elems) = elems else {
+            out.push(viol("C11/fold-over-canon-iterates-without-a-canonical-value", format!("visit calls {visited:?} were issued although no data of the history holds the canonical value")));
+            return out;
+        };
+        let eset: BTreeMap<String, u32> = elems.iter().fold(BTreeMap::new(), |mut m, e| {
+            *m.entry(e.clone()).or_insert(0) += 1;
+            m
+        });
+        let mut vis: BTreeMap<String, u32> = BTreeMap::new();
+        for ((_, v), n) in &visited {
+            *vis.entry(v.clone()).or_insert(0) += n;
+        }
+        for (v, n) in &vis {
+            if n > eset.get(v).unwrap_or(&0) {
+                out.push(viol("C11/fold-over-canon-visits-a-value-the-canon-does-not-hold", format!("visit called {n} times with {v}; the canonical value holds {elems:?}")));
+            }
+        }
+        if info.quiescent {
+            self.canon_fold_quiescent += 1;
+            if vis != eset {
+                out.push(viol("C11/fold-over-canon-does-not-visit-every-element", format!("after everything was delivered the visits are {vis:?}; the canonical value holds {elems:?}")));
+            }
+        }
+        out
     }
 }
 
@@ -197,8 +274,11 @@ impl Monitor for C11 {
         self.multi += b;
         v
     }
-    fn on_state(&mut self, cx: &mut Cx, st: &State, _info: &StateInfo) -> Vec<Viol> {
+    fn on_state(&mut self, cx: &mut Cx, st: &State, info: &StateInfo) -> Vec<Viol> {
         let mut out = vec![];
+        if self.canon_fold {
+            out.extend(self.canon_fold_state(cx, st, info));
+        }
         if !self.cc.applicable {
             return out;
         }
@@ -245,7 +325,7 @@ impl Monitor for C11 {
         self.nontrivial_states
     }
     fn extra(&self) -> Value {
-        json!({"first_canonicalizations_compared": self.first_canons, "with_two_or_more_values": self.multi, "states_holding_a_canon": self.states_with_canon})
+        json!({"first_canonicalizations_compared": self.first_canons, "with_two_or_more_values": self.multi, "states_holding_a_canon": self.states_with_canon, "fold_over_canon_states_checked": self.canon_fold_states, "fold_over_canon_quiescent_states_compared": self.canon_fold_quiescent})
     }
 }
 
@@ -258,8 +338,12 @@ pub struct C13 {
     pub multi: u64,
     pub both_ways: u64,
     pub quiescent_compared: u64,
-    visit_peer: Option<String>,
-    fold_stream: Option<String>,
+    /// stream folds that are not nested in another fold, iterate with `next` and call ("s" "visit*") [iterator] on a
+    /// fixed peer: (stream, visit function, peer). The functions are distinct per fold.
+    folds: Vec<(String, String, String)>,
+    /// per fold: the writers (function names, literal texts) of its stream that come before the fold in the script
+    /// or sit inside it; a value appended after the fold has finished is not one the fold has to visit
+    fold_writers: Vec<(BTreeSet<String>, BTreeSet<String>)>,
     /// route scripts: the fold body calls `<value>.peer ("s" "route...") [value]`, the visit is that call
     route_fn: Option<String>,
     merged: HashSet<Vec<BlobId>>,
@@ -267,44 +351,143 @@ pub struct C13 {
 
 impl C13 {
     pub fn new(ast: &I) -> C13 {
-        // a fold over a global stream whose body calls ("s" "visit") [i] on a fixed peer
-        let mut visit_peer = None;
-        let mut fold_stream = None;
-        script::walk(ast, &mut |x| {
-            if let I::Fold { iterable: Arg::Stream(s), body, .. } = x {
-                script::walk(body, &mut |y| {
-                    if let I::Call { peer: script::PeerRef::Name(p), func, .. } = y {
-                        if func == "visit" {
-                            visit_peer = Some(p.clone());
-                            fold_stream = Some(s.clone());
+        // top-level folds over a global stream whose body calls ("s" "visit*") [iterator] on a fixed peer and iterates
+        // with `next` (a body without `next` visits only the first value of a generation: "visits each value"
+        // presupposes it). Recursion (the body appends to the folded stream) is fine. Folds nested in another fold run
+        // once per outer iteration and are left out, as is any script where two folds share a visit function.
+        fn collect(i: &I, depth: u32, out: &mut Vec<(String, String, String)>) {
+            match i {
+                I::Seq(a, b) | I::Par(a, b) | I::Xor(a, b) => {
+                    collect(a, depth, out);
+                    collect(b, depth, out);
+                }
+                I::New(_, b) | I::Match(_, _, b) | I::Mismatch(_, _, b) => collect(b, depth, out),
+                I::Fold { iterable, iter, body, last } => {
+                    if let (Arg::Stream(s), 0) = (iterable, depth) {
+                        let mut has_next = false;
+                        let mut visit: Vec<(String, String)> = vec![];
+                        script::walk(body, &mut |y| match y {
+                            I::Next(n) if n == iter => has_next = true,
+                            I::Call { peer: script::PeerRef::Name(p), func, args, .. } if func.starts_with("visit") && args.first() == Some(&Arg::Var(iter.clone())) && args.len() == 1 => visit.push((func.clone(), p.clone())),
+                            _ => {}
+                        });
+                        if has_next && visit.len() == 1 {
+                            out.push((s.clone(), visit[0].0.clone(), visit[0].1.clone()));
                         }
                     }
-                });
-            }
-        });
-        // recursion (the body appends to the folded stream) is fine; two folds over the stream are not handled
-        let mut nfolds = 0;
-        script::walk(ast, &mut |x| {
-            if matches!(x, I::Fold { iterable: Arg::Stream(_), .. }) {
-                nfolds += 1;
-            }
-        });
-        if nfolds != 1 {
-            visit_peer = None;
-        }
-        // a body without `next` visits only the first value of a generation: "visits each value" presupposes it
-        let mut has_next = false;
-        script::walk(ast, &mut |x| {
-            if let I::Fold { iterable: Arg::Stream(_), iter, body, .. } = x {
-                script::walk(body, &mut |y| {
-                    if matches!(y, I::Next(n) if n == iter) {
-                        has_next = true;
+                    collect(body, depth + 1, out);
+                    if let Some(l) = last {
+                        collect(l, depth + 1, out);
                     }
-                });
+                }
+                _ => {}
+            }
+        }
+        let mut folds = vec![];
+        collect(ast, 0, &mut folds);
+        // writers in script order, with the index of the enclosing top-level stream fold (by visit function) if any
+        fn writers_in_order(i: &I, top_fold: Option<usize>, nfold: &mut usize, out: &mut Vec<(String, bool, String, Option<usize>)>) {
+            match i {
+                I::Seq(a, b) | I::Par(a, b) | I::Xor(a, b) => {
+                    writers_in_order(a, top_fold, nfold, out);
+                    writers_in_order(b, top_fold, nfold, out);
+                }
+                I::New(_, b) | I::Match(_, _, b) | I::Mismatch(_, _, b) => writers_in_order(b, top_fold, nfold, out),
+                I::Fold { body, last, .. } => {
+                    let me = if top_fold.is_none() {
+                        *nfold += 1;
+                        Some(*nfold - 1)
+                    } else {
+                        top_fold
+                    };
+                    // marker: a fold starts here
+                    if top_fold.is_none() {
+                        out.push((String::new(), false, String::new(), me));
+                    }
+                    writers_in_order(body, me, nfold, out);
+                    if let Some(l) = last {
+                        writers_in_order(l, me, nfold, out);
+                    }
+                }
+                I::Call { func, out: Out::Stream(s), .. } => out.push((s.clone(), false, func.clone(), top_fold)),
+                I::Ap { src: Arg::Str(t), dst } if dst.starts_with('$') => out.push((dst.clone(), true, Value::String(t.clone()).to_string(), top_fold)),
+                _ => {}
+            }
+        }
+        let mut order = vec![];
+        writers_in_order(ast, None, &mut 0, &mut order);
+        // top-level folds of any kind are numbered in script order; map the collected stream folds onto that numbering
+        let mut top_fold_ids: Vec<usize> = vec![];
+        {
+            fn number(i: &I, depth: u32, n: &mut usize, folds: &[(String, String, String)], out: &mut Vec<usize>) {
+                match i {
+                    I::Seq(a, b) | I::Par(a, b) | I::Xor(a, b) => {
+                        number(a, depth, n, folds, out);
+                        number(b, depth, n, folds, out);
+                    }
+                    I::New(_, b) | I::Match(_, _, b) | I::Mismatch(_, _, b) => number(b, depth, n, folds, out),
+                    I::Fold { body, .. } => {
+                        if depth == 0 {
+                            let id = *n;
+                            *n += 1;
+                            let mut mine = false;
+                            script::walk(body, &mut |y| {
+                                if let I::Call { func, .. } = y {
+                                    if folds.iter().any(|f| &f.1 == func) {
+                                        mine = true;
+                                    }
+                                }
+                            });
+                            if mine {
+                                out.push(id);
+                            }
+                        }
+                    }
+                    _ => {}
+                }
+            }
+            number(ast, 0, &mut 0, &folds, &mut top_fold_ids);
+        }
+        let mut fold_writers = vec![];
+        for (k, (fs, _, _)) in folds.iter().enumerate() {
+            let my_id = top_fold_ids.get(k).copied();
+            let mut funcs = BTreeSet::new();
+            let mut lits = BTreeSet::new();
+            let mut started = false;
+            for (stream, is_lit, text, fold_id) in &order {
+                if stream.is_empty() {
+                    if *fold_id == my_id {
+                        started = true;
+                    }
+                    continue;
+                }
+                let inside = fold_id.is_some() && *fold_id == my_id;
+                if stream == fs && (!started || inside) {
+                    if *is_lit {
+                        lits.insert(text.clone());
+                    } else {
+                        funcs.insert(text.clone());
+                    }
+                }
+            }
+            fold_writers.push((funcs, lits));
+        }
+        if top_fold_ids.len() != folds.len() {
+            folds.clear();
+            fold_writers.clear();
+        }
+        // every visit function must belong to exactly one call site of the script
+        let mut sites: BTreeMap<String, u32> = BTreeMap::new();
+        script::walk(ast, &mut |x| {
+            if let I::Call { func, .. } = x {
+                if func.starts_with("visit") {
+                    *sites.entry(func.clone()).or_insert(0) += 1;
+                }
             }
         });
-        if !has_next {
-            visit_peer = None;
+        if folds.iter().any(|(_, f, _)| sites.get(f) != Some(&1)) {
+            folds.clear();
+            fold_writers.clear();
         }
         let mut route_fn = None;
         script::walk(ast, &mut |x| {
@@ -318,7 +501,7 @@ impl C13 {
                 });
             }
         });
-        C13 { cc: CanonCtx::new(ast), observations: 0, multi: 0, both_ways: 0, quiescent_compared: 0, visit_peer, fold_stream, route_fn, merged: HashSet::new() }
+        C13 { cc: CanonCtx::new(ast), observations: 0, multi: 0, both_ways: 0, quiescent_compared: 0, folds, fold_writers, route_fn, merged: HashSet::new() }
     }
 }
 
@@ -407,23 +590,29 @@ impl Monitor for C13 {
         if let Some(rf) = self.route_fn.clone() {
             return self.route_state(cx, st, info, &rf);
         }
-        let (Some(vp), Some(fs)) = (self.visit_peer.clone(), self.fold_stream.clone()) else { return out };
-        // visits: at most once per value and peer, in every state
-        let pidx = cx.world.peers.iter().position(|p| p.name == vp).unwrap_or(0);
-        let mut visited: BTreeMap<String, u32> = BTreeMap::new();
-        for ((p, rq), n) in st.ghosts.issued.iter() {
-            let r = &cx.reqs[*rq as usize];
-            if r.function == "visit" {
-                if *p as usize != pidx {
-                    continue;
-                }
-                *visited.entry(r.args.first().cloned().unwrap_or_default()).or_insert(0) += n;
-            }
+        if self.folds.is_empty() {
+            return out;
         }
-        for (v, n) in &visited {
-            if *n > 1 {
-                out.push(viol("C13/value-visited-more-than-once", format!("peer {vp} issued the visit call for {v} {n} times")));
+        // visits: at most once per value, fold and peer, in every state
+        let mut visited_by_fold: Vec<BTreeMap<String, u32>> = vec![];
+        for (_, vf, vp) in &self.folds {
+            let pidx = cx.world.peers.iter().position(|p| &p.name == vp).unwrap_or(0);
+            let mut visited: BTreeMap<String, u32> = BTreeMap::new();
+            for ((p, rq), n) in st.ghosts.issued.iter() {
+                let r = &cx.reqs[*rq as usize];
+                if &r.function == vf {
+                    if *p as usize != pidx {
+                        continue;
+                    }
+                    *visited.entry(r.args.first().cloned().unwrap_or_default()).or_insert(0) += n;
+                }
             }
+            for (v, n) in &visited {
+                if *n > 1 {
+                    out.push(viol("C13/value-visited-more-than-once", format!("peer {vp} issued the {vf} call for {v} {n} times")));
+                }
+            }
+            visited_by_fold.push(visited);
         }
         if !info.quiescent || !self.merged.insert(st.prev.clone()) {
             return out;
@@ -442,33 +631,37 @@ impl Monitor for C13 {
             }
         }
         let Ok(d) = crate::data::decode(&acc) else { return out };
-        let mut values: BTreeSet<String> = BTreeSet::new();
-        for e in &d.trace {
-            if let Ent::Call(CallSt::Exec { kind: 't', cid, .. }) = e {
-                if let Some(text) = d.srv(cid).and_then(|a| a.value) {
-                    if let Ok(v) = serde_json::from_str::<Value>(&text) {
-                        if v["f"].as_str().and_then(|f| self.cc.writers.get(f)) == Some(&fs) {
-                            values.insert(crate::host::canon_json_text(&v));
+        self.quiescent_compared += 1;
+        for (k, (fs, vf, vp)) in self.folds.iter().enumerate() {
+            let mut values: BTreeSet<String> = BTreeSet::new();
+            for e in &d.trace {
+                if let Ent::Call(CallSt::Exec { kind: 't', cid, .. }) = e {
+                    if let Some(text) = d.srv(cid).and_then(|a| a.value) {
+                        if let Ok(v) = serde_json::from_str::<Value>(&text) {
+                            if v["f"].as_str().map(|f| self.cc.writers.get(f) == Some(fs) && self.fold_writers[k].0.contains(f)).unwrap_or(false) {
+                                values.insert(crate::host::canon_json_text(&v));
+                            }
                         }
                     }
                 }
             }
-        }
-        if let Some(lits) = self.cc.aps.get(&fs) {
-            // literal writers execute wherever the particle is: present iff some data holds an ap entry
-            if d.trace.iter().any(|e| matches!(e, Ent::Ap(_))) {
-                for l in lits {
-                    values.insert(l.clone());
+            if let Some(lits) = self.cc.aps.get(fs) {
+                // literal writers execute wherever the particle is: present iff some data holds an ap entry
+                if d.trace.iter().any(|e| matches!(e, Ent::Ap(_))) {
+                    for l in lits {
+                        if self.fold_writers[k].1.contains(l) {
+                            values.insert(l.clone());
+                        }
+                    }
                 }
             }
-        }
-        self.quiescent_compared += 1;
-        let seen: BTreeSet<String> = visited.keys().cloned().collect();
-        if seen != values {
-            let missing: Vec<&String> = values.difference(&seen).collect();
-            let extra: Vec<&String> = seen.difference(&values).collect();
-            let kind = if !missing.is_empty() { "value-never-visited" } else { "visited-value-not-in-stream" };
-            out.push(viol(&format!("C13/{kind}"), format!("after everything was delivered peer {vp} visited {seen:?}; the merged stream {fs} holds {values:?}; missing {missing:?} extra {extra:?}")));
+            let seen: BTreeSet<String> = visited_by_fold[k].keys().cloned().collect();
+            if seen != values {
+                let missing: Vec<&String> = values.difference(&seen).collect();
+                let extra: Vec<&String> = seen.difference(&values).collect();
+                let kind = if !missing.is_empty() { "value-never-visited" } else { "visited-value-not-in-stream" };
+                out.push(viol(&format!("C13/{kind}"), format!("after everything was delivered peer {vp} visited ({vf}) {seen:?}; the merged stream {fs} holds {values:?}; missing {missing:?} extra {extra:?}")));
+            }
         }
         out
     }
